@@ -28,6 +28,12 @@
 (*   AnyPayloadResolves  a request-response requester takes ANY payload      *)
 (*               frame - also one without NEXT and COMPLETE - as response    *)
 (*   KeepsChannel  a channel stays registered after an ERROR (finding F17)   *)
+(* frag: a fragmentable frame (PAYLOAD with content, a request) arrives     *)
+(*   "whole", as "two" fragments (first with the follows flag, then a        *)
+(*   PAYLOAD), or only its "first" fragment arrives.  Reassembly is           *)
+(*   transparent: two fragments are handled exactly like the whole frame;     *)
+(*   a first fragment alone causes no reaction - it waits in the reassembly   *)
+(*   cache (`partial`) whatever the state of the stream it names.             *)
 (* TLC enumerates the table, checks the invariants below and prints it;     *)
 (* vf/props/dispatch.py replays every row on real endpoints.                *)
 (***************************************************************************)
@@ -39,10 +45,12 @@ Requests == {"REQUEST_RESPONSE", "REQUEST_STREAM", "REQUEST_CHANNEL", "REQUEST_F
 ConnFrames == {"KEEPALIVE", "LEASE", "METADATA_PUSH", "SETUP", "RESUME", "RESUME_OK"}
 Frames == Payloads \cup Requests \cup ConnFrames \cup {"ERROR", "CANCEL", "REQUEST_N", "EXT"}
 
-VARIABLE c          \* one case: [X, ft, sid]
-Cases == {x \in [X : States, ft : Frames, sid : {"peer", "own", "zero"}] :
+VARIABLE c          \* one case: [X, ft, sid, frag]
+Fragmentable == Requests \cup {"PAYLOAD_N", "PAYLOAD_NC"}
+Cases == {x \in [X : States, ft : Frames, sid : {"peer", "own", "zero"}, frag : {"whole", "two", "first"}] :
             /\ (x.sid = "own" => x.X = "none")
-            /\ (x.sid = "zero" => x.X \in {"none", "rrq"})}     \* stream 0 with and without a bystander stream
+            /\ (x.sid = "zero" => x.X \in {"none", "rrq"})      \* stream 0 with and without a bystander stream
+            /\ (x.frag # "whole" => x.ft \in Fragmentable /\ x.sid = "peer")}
 
 (* is the frame one a conforming peer may send to E in this state? *)
 Legal(x) ==
@@ -55,7 +63,7 @@ Legal(x) ==
            [] x.X \in {"chq", "chs"} -> x.ft \in {"PAYLOAD_N", "PAYLOAD_NC", "PAYLOAD_C", "ERROR", "CANCEL", "REQUEST_N"}
 
 (* a reaction: what the application of E is told, which frames E queues, whether the addressed stream is registered afterwards *)
-R(class, told, out, reg) == [class |-> class, told |-> told, out |-> out, reg |-> reg]
+R(class, told, out, reg) == [class |-> class, told |-> told, out |-> out, reg |-> reg, partial |-> FALSE]
 Registered(x) == x.X # "none" /\ x.sid # "zero"
 Ignore(x) == R("ignored", {}, {}, Registered(x))
 Reject(x) == R("rejected", {}, {"ERROR:sid:REJECTED"}, Registered(x))
@@ -101,8 +109,12 @@ OnStream(x) ==
                         [] f = "REQUEST_N"  -> R("handled", {"pub_request:2"}, {}, TRUE)
                         [] OTHER            -> Ignore(x)
 
+Whole(x) == [x EXCEPT !.frag = "whole"]
+RECURSIVE React(_)
 React(x) ==
-    IF x.sid = "zero" THEN OnZero(x)
+    IF x.frag = "first" THEN [Ignore(x) EXCEPT !.class = "waiting", !.partial = TRUE]      \* nothing happens until the frame is complete
+    ELSE IF x.frag = "two" THEN React(Whole(x))                                            \* reassembly is transparent
+    ELSE IF x.sid = "zero" THEN OnZero(x)
     ELSE IF x.ft \in Requests THEN (IF x.X = "none" THEN Accept(x.ft) ELSE Reject(x))
     ELSE IF x.ft \in ConnFrames \cup {"EXT"} THEN Ignore(x)      \* connection-level frame on a stream id / unknown extension
     ELSE OnStream(x)
@@ -115,17 +127,19 @@ Spec == Init /\ [][Next]_<<c>>
 Dev(r) == r.class \in {"deviation:SetupAgain", "deviation:ExecZero", "deviation:AnyPayloadResolves", "deviation:KeepsChannel"}
 (* C12: protocol-violating input is ignored or answered with an ERROR on the offending stream (the named deviations aside) *)
 Contained == ~Legal(c) => LET r == React(c) IN
-                 \/ r.class = "ignored" /\ r.told = {} /\ r.out = {} /\ r.reg = Registered(c)
+                 \/ r.class \in {"ignored", "waiting"} /\ r.told = {} /\ r.out = {} /\ r.reg = Registered(c)
                  \/ r.class = "rejected" /\ r.told = {} /\ \A o \in r.out : o \in {"ERROR:sid:REJECTED", "ERROR:0:REJECTED_RESUME"}
                  \/ Dev(r)
                  \/ (c.X = "none" /\ c.sid = "own" /\ c.ft \in Requests)     \* a request on an id of E's own parity is served like any other
 (* a legal frame is never rejected or ignored - LEASE on a connection without leases has no visible effect *)
-LegalIsHandled == Legal(c) => React(c).class \in {"handled", "deviation:KeepsChannel"}
+LegalIsHandled == Legal(c) /\ c.frag # "first" => React(c).class \in {"handled", "deviation:KeepsChannel"}
+(* C03: reassembly is transparent, and nothing is handed over before the last fragment *)
+ReassemblyTransparent == (c.frag = "two" => React(c) = React(Whole(c))) /\ (c.frag = "first" => React(c).told = {} /\ React(c).out = {})
 (* C13: a request frame that reuses an id still active is rejected, the application is not told, the stream stays *)
-DuplicateRejected == (c.ft \in Requests /\ c.X # "none" /\ c.sid # "zero")
+DuplicateRejected == (c.ft \in Requests /\ c.X # "none" /\ c.sid # "zero" /\ c.frag # "first")
                         => React(c) = R("rejected", {}, {"ERROR:sid:REJECTED"}, TRUE)
 (* frames for unknown streams are dropped silently *)
-UnknownDropped == (c.X = "none" /\ c.sid # "zero" /\ c.ft \notin Requests) => React(c) = Ignore(c)
+UnknownDropped == (c.X = "none" /\ c.sid # "zero" /\ c.ft \notin Requests /\ c.frag # "first") => React(c) = Ignore(c)
 (* C08: the only frames ever queued in reaction are an answer of the right kind: a response on the request's stream, an echo, an ERROR *)
 ReactionFramesLegal == \A o \in React(c).out : o \in {"PAYLOAD:sid", "KEEPALIVE:0", "ERROR:sid:REJECTED", "ERROR:0:REJECTED_RESUME",
                                                      "ERROR:0:APPLICATION_ERROR"}
